@@ -166,6 +166,48 @@ def gen_cases(rng, tier):
                 for i in range(len(group))]
         for via in ("fileobj", "path"):
             cases.append({"kind": "stream", "via": via, "records": recs})
+    # ---- second generation: records read from a stream are edited IN PLACE (a field assigned, a digest's hashes
+    # set, an element appended to a list) and written again: the second stream holds the edited records
+    r = rng.fork("regen")
+    RG = ["t/regen", [["digest", "d"], ["digest[]", "dl"], ["string", "s"], ["path[]", "pl"], ["varint", "n"],
+                      ["net.ipaddress", "ip"], ["string[]", "sl"]]]
+    MD5S = ["d41d8cd98f00b204e9800998ecf8427e", "900150983cd24fb0d6963f7d28e17f72", "0cc175b9c0f1b6a831c399e269772661"]
+    SHA1S = ["da39a3ee5e6b4b0d3255bfef95601890afd80709", "a9993e364706816aba3e25717850c26c9cd0d89d"]
+    SHA256S = ["e3b0c44298fc1c149afbf4c8996fb92427ae41e4649b934ca495991b7852b855",
+               "ba7816bf8f01cfea414140de5dae2223b00361a396177a9cb410ff61f20015ad"]
+
+    def _dg():
+        return ["digest", [r.choice(MD5S + [None]), r.choice(SHA1S + [None]), r.choice(SHA256S + [None])]]
+    for _ in range({"quick": 30, "thorough": 400, "search": 120}[tier]):
+        recs = []
+        for _ in range(r.randint(1, 3)):
+            recs.append(["rec", RG, [_dg(), ["list", [_dg() for _ in range(r.randint(0, 2))]], V.S(V.gen_text(r)),
+                                     ["list", [["path", "posix", V.enc_str("/a/b")]] * r.randint(0, 2)], V.I(r.below(1000)),
+                                     ["ip", r.choice(["10.0.0.1", "2001:db8::1"])], ["list", [V.S("x")] * r.randint(0, 2)]],
+                         {"_generated": V.gen_dt_spec(r, tzkinds=("utc",), fold_ok=False)}])
+        mods = []
+        for _ in range(r.randint(1, 4)):
+            i = r.below(len(recs))
+            w = r.below(8)
+            if w < 3:
+                mods.append([i, "digest", "d", None, r.choice(["md5", "sha1", "sha256"])])
+            elif w == 3:
+                mods.append([i, "digest", "dl", 0, r.choice(["md5", "sha1", "sha256"])])
+            elif w == 4:
+                mods.append([i, "set", r.choice(["s", "n", "ip", "d"])])
+            elif w == 5:
+                mods.append([i, "append", "pl", ["path", "posix", V.enc_str("/x/" + str(r.below(9)))]])
+            elif w == 6:
+                mods.append([i, "append", "sl", V.S(V.gen_text(r))])
+            else:
+                mods.append([i, "append", "dl", _dg()])
+        for m in mods:
+            if m[1] == "digest":
+                m.append(r.choice({"md5": MD5S, "sha1": SHA1S, "sha256": SHA256S}[m[4]] + [None]))
+            elif m[1] == "set":
+                m.append({"s": V.S(V.gen_text(r)), "n": V.I(r.below(10 ** 6)), "ip": ["ip", r.choice(["192.168.1.1", "fe80::1"])],
+                          "d": _dg()}[m[2]])
+        cases.append({"kind": "stream", "via": r.choice(["fileobj", "path"]), "records": recs, "regen": mods})
     # ---- the field-type layer on its own: value -> _pack() -> msgpack round trip -> _unpack()
     r = rng.fork("field")
     for t in sorted(FIELD_KINDS):
@@ -389,8 +431,47 @@ def run_real(case):
             rvs = [W.to_rv(r) for r in got]
         except Exception as e:
             rvs = ["to_rv failed: " + str(e)[:80]]
-        return {"before": before, "after": after, "error": err, "stream": data.hex(), "pvs": pvs, "rvs": rvs,
-                "hashes": hashes, "spec_sig": spec_sig}
+        out = {"before": before, "after": after, "error": err, "stream": data.hex(), "pvs": pvs, "rvs": rvs,
+               "hashes": hashes, "spec_sig": spec_sig}
+        if case.get("regen") and err is None and len(got) == len(recs):
+            out["regen"] = _regen(case, got)
+        return out
+
+
+def _regen(case, got):
+    """edit the records that came out of the reader in place, write them again, read them back"""
+    from flow.record import RecordStreamReader, RecordStreamWriter
+    try:
+        for m in case["regen"]:
+            if m[0] >= len(got) or not hasattr(got[m[0]], m[2]):
+                continue            # (a shrunk case: the record or the field is gone)
+            rec = got[m[0]]
+            if m[1] == "digest":
+                tgt = getattr(rec, m[2])
+                if m[3] is not None:
+                    if len(tgt) <= m[3]:
+                        continue
+                    tgt = tgt[m[3]]
+                setattr(tgt, m[4], m[5])
+            elif m[1] == "set":
+                setattr(rec, m[2], V.build(m[3]))
+            elif m[1] == "append":
+                lst = getattr(rec, m[2])
+                x = V.build(m[3])
+                if not isinstance(x, lst.__type__):
+                    x = lst.__type__(x)       # the element as the field's own type (what the reader hands back)
+                lst.append(x)
+        before2 = [V.observe(r) for r in got]
+        buf = io.BytesIO()
+        w = RecordStreamWriter(buf)
+        for r in got:
+            w.write(r)
+        w.flush()
+        w.fp = None
+        again = list(RecordStreamReader(io.BytesIO(buf.getvalue())))
+        return {"before": before2, "after": [V.observe(r) for r in again], "error": None}
+    except Exception as e:          # noqa: BLE001
+        return {"before": [], "after": [], "error": _errname(e) + ": " + str(e)[:100]}
 
 
 def first_diff(a, b, path=""):
@@ -478,6 +559,17 @@ def oracle(case, obs):
             known = known or f"[ipv6<2^32] {path}: IPv6 address {a[3]} read back as IPv4"
             continue
         return f"record read back differs from record written at {path}: {a!r} != {b!r}"[:400]
+    g = obs.get("regen")
+    if g:
+        if g["error"]:
+            return f"editing the records read back and writing them again raised {g['error']}"
+        if len(g["before"]) != len(g["after"]):
+            return f"second generation: wrote {len(g['before'])} records, read {len(g['after'])}"
+        for path, a, b in all_diffs(g["before"], g["after"], "records"):
+            if is_ipv6_low(a, b):
+                continue
+            return (f"second generation (records read, edited in place, written again) differs at {path}: "
+                    f"{a!r} != {b!r}")[:400]
     return known
 
 
